@@ -7,7 +7,8 @@ lazily filled `Menu` (what the code does) and once over the full list (what the 
 
 Ported: `RimeGetContext` (menu part, rime_api_impl.h), `RimeCandidateListFromIndex/Next`,
 `RimeHighlightCandidate(OnCurrentPage)`, `RimeChangePage`, `Context::Highlight`, `Context::HasMenu`,
-`Selector::NextPage/PreviousPage/NextCandidate/PreviousCandidate`.
+`Selector::NextPage/PreviousPage/NextCandidate/PreviousCandidate/Home/End` (for a key op the observation is whether the
+selector handled the key; when it does not, the navigator moves the caret, which is outside these ops).
 -/
 namespace RimeModel.C04
 
@@ -20,6 +21,8 @@ inductive SegOp where
   | highlightOnPage (index : Nat)
   | changePage (backward : Bool)
   | nextPage | prevPage | nextCand | prevCand
+  /-- `Selector::Home`, and `Selector::End` with the caret at the end of the input (`End` is `Home` there) -/
+  | home
   /-- `candidate_list_from_index(from)` followed by up to `n` × `candidate_list_next` -/
   | list (from_ n : Nat)
   deriving Repr, DecidableEq
@@ -37,6 +40,8 @@ inductive Obs (α : Type) where
 structure Cfg where
   pageSize : Nat
   pageDownCycle : Bool := false
+  /-- `is_linear_layout(ctx)`: option `_linear` or `_horizontal` -/
+  linear : Bool := false
 
 /-! ### lazy side: the code -/
 
@@ -100,7 +105,11 @@ def LSeg.step (cfg : Cfg) (g : LSeg α) : SegOp → LSeg α × Obs α
     | some i => ({ menu := r.1, sel := i }, .ret true)
     | none => ({ g with menu := r.1 }, .ret true)
   | .prevCand =>
-    if g.sel = 0 then (g, .ret true) else ({ g with sel := g.sel - 1 }, .ret true)
+    -- `index <= 0`: `return !is_linear_layout(ctx)` — in a linear layout the key is left to the navigator (`.ret false`)
+    if g.sel = 0 then (g, .ret (!cfg.linear)) else ({ g with sel := g.sel - 1 }, .ret true)
+  | .home =>
+    -- `selected_index > 0`: back to the first candidate; otherwise the navigator handles the key (`.ret false`)
+    if g.sel = 0 then (g, .ret false) else ({ g with sel := 0 }, .ret true)
   | .list from_ n =>
     if !g.hasMenu then (g, .ret false)
     else let t := listLoop n g.menu from_; ({ g with menu := t.2.2 }, .cands t.1 t.2.1)
@@ -167,7 +176,9 @@ def ASeg.step (cfg : Cfg) (g : ASeg α) : SegOp → ASeg α × Obs α
     | some i => ({ g with sel := i }, .ret true)
     | none => (g, .ret true)
   | .prevCand =>
-    if g.sel = 0 then (g, .ret true) else ({ g with sel := g.sel - 1 }, .ret true)
+    if g.sel = 0 then (g, .ret (!cfg.linear)) else ({ g with sel := g.sel - 1 }, .ret true)
+  | .home =>
+    if g.sel = 0 then (g, .ret false) else ({ g with sel := 0 }, .ret true)
   | .list from_ n =>
     if !g.hasMenu then (g, .ret false)
     else
